@@ -80,6 +80,7 @@ def err_event(o):
 
 
 CONSTRUCT = False
+EVALUATE = False     # also log the evaluated config (plain data with exact types) in the Construct event
 
 
 def construct_outcome(docs, safes=None):
@@ -93,8 +94,16 @@ def construct_outcome(docs, safes=None):
     del vmod.CALLS[:]
     del vmod.STACK[:]
     try:
-        Config(t)
-        return {"status": "ok", "paths": [], "calls": len(vmod.CALLS)}
+        cfg = Config(t)
+        out = {"status": "ok", "paths": [], "calls": len(vmod.CALLS)}
+        if EVALUATE:
+            import evalobs
+            ids, issues = [], []
+            out["data"] = evalobs.plain_result(cfg, [], ids, issues)
+            if issues:
+                out["status"] = "Crash:result-shape:" + str(issues[0][0])
+            out["py"] = cfg
+        return out
     except errors.Error as e:
         return {"status": type(e).__name__, "paths": [], "calls": len(vmod.CALLS)}
     except ValueError as e:
@@ -118,6 +127,7 @@ def history_trace(tid, docs, safes=None):
         ev.append({"e": "Finish"})
         if CONSTRUCT:
             c = construct_outcome(docs, safes)
+            c.pop("py", None)
             c["e"] = "Construct"
             ev.append(c)
     return {"tid": tid, "ev": ev}
